@@ -414,6 +414,22 @@ def check_C03(tier, seed):
             kf_rt += 1; kf_rt_ex = kf_rt_ex or '%s => %s, then (%s) => %s; prescribed %s, then %s' % (text, got[0], var, got[1], rt_prescribed[var][0], rt_prescribed[var][1])
     replay_known(res, 'C03')
     classifier_hits(res, 'C03', 'c03_definition_under_temporary', kf_rt, kf_rt_ex)
+    # thousands of live bindings of one variable (non-tail recursion through parameters, let and dotimes), ending normally and
+    # with an error at the bottom: afterwards the variables are unbound again
+    dcs = []
+    for j, (defs, call) in enumerate([("(defun down (n) (if (< n 1) 0 (+ 1 (down (- n 1)))))", "(down 2500)"), ("(defun downe (n) (if (< n 1) (nofn) (+ 1 (downe (- n 1)))))", "(downe 2500)"),
+                                      ("(defun nest (n) (let ((k n)) (if (< k 1) 0 (+ 1 (nest (- k 1))))))", "(nest 2000)"),
+                                      ("(defun loops (n) (let ((k n) (r 0)) (dotimes (i 1) (setq r (if (< k 1) 0 (+ 1 (loops (- k 1)))))) r))", "(loops 1800)")]):
+        c = Case('dp%d' % j); c.eval(defs); c.eval(call); c.vars(['n', 'k', 'i', 'r']); c.eval("(list (boundp 'n) (boundp 'k) (boundp 'i) (boundp 'r))")
+        dcs.append(c)
+    core.build_impl(release=True)
+    dout = core.run_side(core.TLIMPL_RELEASE, dcs, announce=True, env={'TL_STACK_MB': '1024'}, timeout=600)
+    for c in dcs:
+        ls = dout.get(c.cid, [])
+        res.cov['evaluations'] += len(ls)
+        ok_ = len(ls) == 4 and core.parse_line(ls[1])[1] in ('V', 'E') and unhx(core.parse_line(ls[3])[2]) == '(nil nil nil nil)' and not vars_depth_oracle(ls[2])
+        if not ok_:
+            res.violation('stale-binding', {'requests': c.readable(), 'lines': [decode_line(l) for l in ls], 'oracle': 'after deep recursion (thousands of live bindings of one variable) every variable is unbound again'})
     res.cov['runtime_definition_cases'] = len(rt)
     # model-free oracle on the implementation
     byid = {c.cid: c for c in cases}
@@ -663,6 +679,20 @@ def check_C08(tier, seed):
     for d in (50, 100, 150, 200):
         c.parse('(' * d + 'a' + ')' * d); c.parse("'" * d + 'a'); c.parse('(' * d); c.parse('`' * d + ',' * d + 'a')
     pcases.append(c)
+    # long flat texts: nesting is what may cost stack, length may not (lists, strings, many top-level forms; closed and cut short)
+    c = Case('long')
+    for n_ in (3000, 20000):
+        flat = ' '.join(str(i % 97) for i in range(n_))
+        c.parse("'(" + flat + ')'); c.parse("'(" + flat); c.parse("'((" + flat + ') . ' + 'z)'); c.parse('(list ' + ' '.join('"s%d"' % (i % 50) for i in range(n_)) + ')')
+        c.parse(' '.join('(f %d)' % i for i in range(n_ // 4))); c.parse('"' + 'ab\\n' * n_ + '"'); c.parse("'(" + ' '.join("'a" for _ in range(n_)) + ')')
+    longcase = c
+    for binary, label in ((core.TLIMPL_DEBUG, 'debug'), (core.TLIMPL_RELEASE, 'release')):
+        lo = core.run_side(binary, [longcase], announce=True, stall=60, env={'TL_STACK_MB': '2'}, timeout=900).get('long', [])
+        total += len(lo)
+        kinds_ = [core.parse_line(l)[1] for l in lo]
+        if len(lo) < longcase.nreq or any(k_ in ('A', 'H', 'P') for k_ in kinds_):
+            res.violation('reader-panic', {'text': 'long flat texts (3 000 and 20 000 elements: lists closed / cut short / dotted, strings, top-level forms) on a 2 MiB stack', 'profile': label,
+                                           'outcomes': kinds_, 'why': 'the reader aborted, hung or panicked on a long text of nesting depth <= 3'})
     for binary, label in ((core.TLIMPL_DEBUG, 'debug'), (core.TLIMPL_RELEASE, 'release')):
         impl = core.run_side(binary, pcases, announce=True, stall=30)
         model = core.run_side(core.TLMODEL, pcases)
@@ -2072,7 +2102,11 @@ def check_C04(tier, seed):
                                                                                              ("(seq-find 'ev-down '(1 3) 'none)", 'none'), ("(funcall 'ev-down 20001)", 'nil')]),
            ("(defun last-el (l) (if (consp (cdr l)) (last-el (cdr l)) (car l)))", [("(mapcar 'last-el '((1 2 3) (4) nil))", '(3 4 nil)'), ("(seq-filter 'last-el '((1 nil) (2 3)))", '((2 3))'), ("(seq-reduce (lambda (a l) (+ a (last-el l))) '((1 2) (3 4)) 0)", '6')]),
            ("(defun cnt (n &optional acc) (if (< n 1) (or acc 0) (cnt (- n 1) (+ 1 (or acc 0)))))", [("(mapcar 'cnt '(0 3 10))", '(0 3 10)'), ("(seq-map 'cnt '(200000))", '(200000)')]),
-           ("(defun upto (n &rest acc) (if (< n 1) acc (upto (- n 1) n)))", [("(mapcar 'upto '(0 1 3))", '(nil (1) (1))'), ("(seq-filter 'upto '(0 2))", '(2)')])]
+           ("(defun upto (n &rest acc) (if (< n 1) acc (upto (- n 1) n)))", [("(mapcar 'upto '(0 1 3))", '(nil (1) (1))'), ("(seq-filter 'upto '(0 2))", '(2)')]),
+           # a self tail call that passes no arguments at all: (Bounce) is a bounce too
+           ("(setq i 5) (defun drain () (if (> i 0) (progn (setq i (- i 1)) (drain)) 'done))", [("(list (drain) i)", '(done 0)'), ("(progn (setq i 3) (list (funcall 'drain) i))", '(done 0)'), ("(progn (setq i 2) (mapcar (lambda (e) (drain)) '(1 2)))", '(done done)')]),
+           ("(setq c0 0) (defun opt0 (&optional a &rest r) (if a (list a r c0) (progn (setq c0 (+ c0 1)) (if (> c0 3) (opt0 'end) (opt0)))))", [("(opt0)", '(end nil 4)'), ("(progn (setq c0 0) (opt0 nil))", '(end nil 4)')]),
+           ("(setq q0 '(1 2 3)) (defun pop-all () (cond ((null q0) 'empty) (t (setq q0 (cdr q0)) (pop-all))))", [("(list (pop-all) q0)", '(empty nil)')])]
     ocases = []
     for j, (d_, calls_) in enumerate(one):
         c = Case('one%d' % j); c.eval(d_)
@@ -2208,9 +2242,17 @@ def check_C09(tier, seed):
     comp = ['(* 1.0 10000000000000000)', '(/ 1.0 100000)', '(* 2.5 4)', '(- 0.0 0.0)', '(* -1.0 0.0)', '(expt 10 20)', '(/ 1.0 3)', '(+ 0.1 0.2)', '(* 1e300 1.0)'.replace('1e300', '1' + '0' * 300 + '.0'),
             '(list (* 1.0 100000000000000000000) (/ 3.0 10000000) "a\\\\b" (concat "q" "\\"" "\\\\"))', '(list (1+ 9223372036854775806) (- -9223372036854775807 1))',
             "(list (intern \"ab\") :k 'nil 't (cons 1 2) (cons 1 (cons 2 3)))", '(format "%s\\\\%s" "a" "b")', '(concat "back\\\\slash" "")', '(list (concat "x\\\\" "") (concat "\\\\" "\\\\"))']
+    # data lists headed by the names of the reader macros: under a quote they are ordinary lists (read, printed and read again
+    # as lists), both written out and consed at run time
+    for t_ in ["'(quote a)", "'(x (quote (1 2)) y)", "'(function car)", "'(quote)", "'(quote a b)", "'(quote . a)", "'((quote a) . (quote b))", "'(backquote (a (unquote b)))",
+               "(list 'quote 'a)", "(list 'x (list 'quote (list 1 2)) (cons 'quote nil))", "(list (consp '(quote a)) (car '(quote a)) (length '(x (quote (1 2)) y)) (equal '(quote a) (list 'quote 'a)) (cadr '(quote a)))",
+               "'(progn (quote a) (function b) (quote (quote c)))", "(cdr '(0 quote a))", "'(1 quote)"]:
+        comp.append(t_)
+    nq = len(comp) - 14
     for i, t in enumerate(comp):
-        c = Case('q%d' % i); c.eval(t); pcases.append(c)
+        c = Case(('q%d' if i < nq else 'k%d') % i); c.eval(t); pcases.append(c)
     impl1 = core.run_side(core.TLIMPL_DEBUG, pcases, announce=True)
+    kq = []
     rcases = []; rmeta = []
     for c in pcases:
         ls = impl1.get(c.cid, [])
@@ -2220,6 +2262,8 @@ def check_C09(tier, seed):
             if kind in ('P', 'A', 'H'): res.violation('print', {'request': c.readable(), 'impl': ls[0]})
             continue
         printed = unhx(payload)
+        if c.cid.startswith('k'):
+            kq.append((c, printed)); continue        # the parse hook expands macro calls, (quote ..) included: these go through eval only
         rc = Case('b' + c.cid)
         rc.parse(c.readable()[1][6:] if c.cid.startswith('p') else '0')
         rc.parse(printed)
@@ -2251,6 +2295,8 @@ def check_C09(tier, seed):
     for rc, meta in zip(rcases, rmeta):
         if meta['computed']:
             c = Case('f' + rc.cid); c.eval("'" + meta['printed']); fcases.append((c, meta))
+    for c0, printed in kq:
+        c = Case('f' + c0.cid); c.eval("'" + printed); fcases.append((c, {'printed': printed, 'src': c0.readable()[1], 'computed': True}))
     outf = core.run_side(core.TLIMPL_DEBUG, [c for c, _ in fcases])
     for c, meta in fcases:
         ls = outf.get(c.cid, [])
@@ -2304,6 +2350,8 @@ C10_KINDS = [
     ('list', "'(1 2 3)"), ('dotted', "'(1 . 2)"), ('alist', "'((a . 1) (b . 2))"), ('lambda', '(lambda (p) p)'), ('func', 'car'), ('macro', 'when'),
     ('htab', 'vh'), ('box', 'vbox'), ('selfsym', 'vs'), ('big', '4611686018427387904'),
     ('empty-str', '""'), ('uni-str', '"\u00e9%\u00e9\u6f22 %"'),
+    # reader wrapper objects kept as data by a plain quote: an unquote, a splice, a backquote, a quote
+    ('unq', "(car '(,a))"), ('spl', "(car '(,@a))"), ('bqv', "(car '(`a))"), ('qv', "(car '('a))"), ('wraplist', "'(,a ,@a `a 'a)"),
 ]
 C10_PRELUDE = "(setq vinf (expt 10.0 1000)) (setq vnan (- vinf vinf)) (setq vh (make-hash-table)) (setq vbox (host-box)) (setq vs 'vs) (setq a 1)"
 
@@ -2349,6 +2397,11 @@ def check_C10(tier, seed):
               "(defun f () (defun f () 2) 1) (list (f) (f))", "(setq form '(defmacro mm () (eval form))) (eval form)", "(defun g () (eval '(defun g () (g))) 7) (g)",
               "(setq l '(1 2)) (append l l)", "(setq l '(1 2)) (equal l l)", "(setq s 'q) (append s s)", "(let ((l (list 1 2))) (sort l (lambda (a b) (append l l) nil)))"]
     for sh in shapes: items.append((sh, {'name': 'shape'}))
+    # every name applied, as a function value, to elements that are reader wrapper objects, through the sequence functions
+    for nme in names:
+        if nme in ('while', 'while-let'): continue
+        for route in ("(mapcar '%s '(,a ,@a `a 'a))", "(seq-filter '%s '(,a ,@a))", "(seq-find '%s '(,@a ,a))", "(sort '(,a ,@a `a) '%s)", "(seq-reduce '%s '(,a ,@a) ',a)", "(funcall '%s (car '(,a)) (car '(,@a)))"):
+            items.append((route % nme, {'name': nme + '-wrapper-elements'}))
     # the form under evaluation handed to the function it calls (the evaluator holds a borrow of that list while the call runs):
     # (setq vf '(NAME vf ..)) (eval vf), for every name, the form first, second and in both positions, bare and below a progn
     self_items = []
@@ -2723,6 +2776,18 @@ def check_C16(tier, seed):
   (let ((y v)) (tick 1 y)
     (let* ((z y)) (progn (tick 2 z)
        (if z (tick 3 z) (tick 4 z))))))
+(defun tp (v)
+  (if v
+      (progn (tick 30 v))
+    (when (null v)
+       (tick 31 v))))
+(defun tq (v) (let ((w v))
+   (cond ((null w) (progn
+        (tick 32 w)))
+     (t (when w (tick 33 w))))))
+(defun tr (v) (progn (when v (tick 34 v))))
+(tp 1) (tp nil)
+(tq nil) (tq 2) (tr 3)
 (my-progn (tick 5 1)
    (tick 6 2))
 (my-when (tick 7 3) (tick 8 4) (list (tick 9 5)))
@@ -2974,6 +3039,13 @@ def check_C19(tier, seed):
                 plist = names_[:nreq] + (['&optional'] + names_[nreq:len(names_) - (1 if rest_ else 0)] if nreq < len(names_) - (1 if rest_ else 0) else []) + (['&rest', names_[-1]] if rest_ else [])
                 nargs = rng.randint(nreq, len(names_) + (2 if rest_ else 0))
                 texts.append('(funcall (lambda (%s) (list %s)) %s)' % (' '.join(plist), ' '.join(names_), ' '.join(str(rng.randint(0, 99)) for _ in range(nargs))))
+        if rng.random() < 0.1:
+            nl = rng.choice([300, 600])
+            strs = ' '.join('"s%d"' % k for k in range(nl)); ints = ' '.join(str(1000 + k) for k in range(nl))
+            probe = [rng.randrange(nl) for _ in range(12)]
+            texts.append("(setq bigs '(%s)) (list %s)" % (strs, ' '.join('(eq (nth %d bigs) "s%d")' % (k, k) for k in probe)))
+            texts.append("(setq hl (make-hash-table)) %s (list %s)" % (' '.join('(puthash "k%d" %d hl)' % (k, k) for k in range(nl)), ' '.join('(gethash "k%d" hl)' % k for k in probe)))
+            texts.append("(setq bigi '(%s)) (list %s)" % (ints, ' '.join('(eq (nth %d bigi) %d)' % (k, 1000 + k) for k in probe)))
         hists.append((texts, g.all_vars()))
     noise = ["(defun length (x) 42)", "(setq max 5)", "(defun f0 (&rest r) 'other-context)", "(setq a 'leak) (setq b 'leak) (setq x 'leak)", "(defmacro when (&rest r) ''hijacked)",
              "(setq gensym-counter 500)", "(defun car (x) 'no)", "(setq t1 (intern \"t\"))", "(defun r0 (n acc) 'other)", "(setq ht (make-hash-table)) (puthash 1 'other ht)", "(defun + (&rest r) 0)"]
